@@ -27,6 +27,7 @@ const W_TABLES_EMPTY: u64 = 16;
 const W_REOPEN_WHILE_HELD: u64 = 32;
 const W_LOCAL_REOPEN_WHILE_HELD: u64 = 64;
 const W_OLD_STREAM_READ_AFTER_REOPEN: u64 = 128;
+const W_BIND_ON_REUSED_ID: u64 = 256;
 
 fn victim_histories() -> (Vec<Vec<Op>>, Vec<Vec<Op>>) {
     let a = vec![
@@ -179,9 +180,13 @@ enum Cyc {
     /// peer has opened the id again: the dead stream must not put frames (acknowledgements) on the wire under an id
     /// that belongs to another stream now
     PeerResetReopenHeldReadsLater,
+    /// the same with a BIND REQUEST of the local application as the new user of the id (its generator draws the id the
+    /// peer has just reset, the old stream is still held with unread frames): reading the old stream must not put
+    /// anything on the wire under that id, and the request resolves with the peer's own answer
+    BindOnReusedIdHeldReadsLater,
 }
 
-const CYCS: [Cyc; 11] = [
+const CYCS: [Cyc; 12] = [
     Cyc::PeerOpenClean,
     Cyc::PeerOpenLocalAbort,
     Cyc::PeerOpenPeerReset,
@@ -193,6 +198,7 @@ const CYCS: [Cyc; 11] = [
     Cyc::PeerResetReopenWhileHeld,
     Cyc::LocalResetReopenWhileHeld,
     Cyc::PeerResetReopenHeldReadsLater,
+    Cyc::BindOnReusedIdHeldReadsLater,
 ];
 
 struct B {
@@ -266,6 +272,7 @@ fn exec_b(seq: &[Cyc], render: bool) -> RunOutput {
                 plans.insert(tag + 5, EndPlan::SeqKeep(vec![Op::Park]));
                 EndPlan::SeqKeep(vec![Op::Gate(pos as u8), Op::ReadToEof(4), Op::Park])
             }
+            Cyc::BindOnReusedIdHeldReadsLater => EndPlan::SeqKeep(vec![Op::Gate(pos as u8), Op::ReadToEof(4), Op::Park]),
             Cyc::PeerResetReopenWhileHeld => {
                 // second incarnation (tag + 7 = 0x?f, used by no other variant): an ordinary exchange
                 plans.insert(tag + 7, EndPlan::SeqKeep(vec![Op::W(1), Op::ReadToEof(4), Op::Shutdown]));
@@ -328,6 +335,51 @@ fn exec_b(seq: &[Cyc], render: bool) -> RunOutput {
                 }
                 b.settle();
                 b.raw.send(&RFrame::Reset { id: F });
+                b.settle();
+            }
+            Cyc::BindOnReusedIdHeldReadsLater => {
+                b.raw.send(&RFrame::Connect { id: F, rwnd: 2, port: 1, host: vec![tag] });
+                for i in 0..2u8 {
+                    let d = payload(tag, 1, i as usize, 1);
+                    b.raw.send(&RFrame::Push { id: F, data: d.clone() });
+                    b.w.obs.borrow_mut().dir(tag, 0).written.extend(&d);
+                }
+                b.raw.send(&RFrame::Reset { id: F });
+                b.settle();
+                // the application asks the peer to bind; its generator draws the id the peer has just let go of
+                {
+                    let mut q = b.w.rng_inject[0].borrow_mut();
+                    q.clear();
+                    q.extend([F; 2]);
+                }
+                let n = 0x300 + pos as u32;
+                b.w.spawn_bind_requester(0, n, 1, vec![tag], 9);
+                let got = b.settle();
+                let on_f = got.iter().any(|m| matches!(m, RMsg::Frame(RFrame::Bind { id: F, .. })));
+                if !on_f {
+                    b.v("reuse.local-id-not-free", format!("cycle {pos} ({c:?}): the generator proposes {F}, which the peer has reset and is free; frames seen {got:?}"));
+                }
+                // now the application reads what the OLD stream still has
+                b.w.obs.borrow_mut().open_gate(pos as u8);
+                let got = b.settle();
+                if on_f {
+                    b.wit |= W_BIND_ON_REUSED_ID;
+                    let stale: Vec<&RMsg> = got.iter().filter(|m| matches!(m, RMsg::Frame(f) if f.id() == F)).collect();
+                    if !stale.is_empty() {
+                        b.v("reuse.old-stream-speaks-on-new-flow", format!("cycle {pos} ({c:?}): reading the OLD stream of flow {F} (reset by the peer, its slot gone) put {stale:?} on the wire although the id belongs to a pending bind request now"));
+                    }
+                    // the peer application accepts: that, and nothing else, is the answer
+                    b.raw.send(&RFrame::Finish { id: F });
+                    b.settle();
+                    let res = b.w.obs.borrow().events.iter().find_map(|e| if let crate::apps::Ev::BindResult { side: 0, n: m, res } = e { (*m == n).then(|| res.clone()) } else { None });
+                    if res != Some(Ok(true)) {
+                        b.v("bind.false-despite-accept", format!("cycle {pos} ({c:?}): the peer accepted the bind request on flow {F}; request_bind resolved {res:?}"));
+                    }
+                }
+                if let Some(i) = b.w.sim.tasks.iter().position(|x| x.name == format!("s{tag}.a") && !x.done) {
+                    b.w.sim.cancel_task(i);
+                    b.w.obs.borrow_mut().end(&format!("s{tag}.a"));
+                }
                 b.settle();
             }
             Cyc::PeerResetReopenWhileHeld => {
@@ -632,7 +684,7 @@ pub fn run_reuse(args: &Args) -> Report {
     let pid = args.id.trim_end_matches('R').to_string();
     let mut rep = Report::new(&pid, &args.tier, "psim", "model_checking");
     let thorough = args.thorough();
-    let reuse = [Cyc::PeerResetReopenWhileHeld, Cyc::LocalResetReopenWhileHeld, Cyc::PeerResetReopenHeldReadsLater];
+    let reuse = [Cyc::PeerResetReopenWhileHeld, Cyc::LocalResetReopenWhileHeld, Cyc::PeerResetReopenHeldReadsLater, Cyc::BindOnReusedIdHeldReadsLater];
     let mut seqs: Vec<Vec<Cyc>> = Vec::new();
     for c in reuse {
         seqs.push(vec![c]);
@@ -657,9 +709,9 @@ pub fn run_reuse(args: &Args) -> Report {
         fault: 0,
         total_wall: Duration::from_secs(if thorough { 600 } else { 60 }),
         max_execs_per_case: 100_000,
-        required_witnesses: W_REOPEN_WHILE_HELD | W_LOCAL_REOPEN_WHILE_HELD | W_OLD_STREAM_READ_AFTER_REOPEN,
+        required_witnesses: W_REOPEN_WHILE_HELD | W_LOCAL_REOPEN_WHILE_HELD | W_OLD_STREAM_READ_AFTER_REOPEN | W_BIND_ON_REUSED_ID,
         adaptive: thorough,
-        witness_names: &[("peer_reopened_id_while_old_stream_held", W_REOPEN_WHILE_HELD), ("local_reopen_while_old_stream_held", W_LOCAL_REOPEN_WHILE_HELD), ("old_stream_read_after_reopen", W_OLD_STREAM_READ_AFTER_REOPEN)],
+        witness_names: &[("peer_reopened_id_while_old_stream_held", W_REOPEN_WHILE_HELD), ("local_reopen_while_old_stream_held", W_LOCAL_REOPEN_WHILE_HELD), ("old_stream_read_after_reopen", W_OLD_STREAM_READ_AFTER_REOPEN), ("bind_request_on_reused_id", W_BIND_ON_REUSED_ID)],
     };
     rep.rule = "psim, real endpoint + raw peer: open/close cycles in which a flow id is opened again (by the peer, or by the local generator) while the application still holds the old stream of that id (reset by the peer, unread frames in it), alone, before and after every other cycle kind; the old stream is then read and dropped: nothing it does may appear on the wire under the re-used id (no Acknowledge of frames the new flow never carried, no Reset of the new flow), and the new flow keeps its data, credit and state".into();
     rep.assumptions = vec!["re-use is probed at link quiescence".into(), "one poll = one atomic step".into()];
